@@ -364,6 +364,26 @@ func (d *Data) handleSyncMessage(ctx *datastore.VersionedCtx, msg datastore.Sync
 	}
 }
 
+type mappedLabelType interface {
+	GetMappedLabels(v dvid.VersionID, supervoxels []uint64) (mapped []uint64, found []bool, err error)
+}
+
+// bodyLabels converts values read from a block of the synced label data into the labels under
+// which elements are indexed: labelmap blocks hold supervoxel ids, and an element on a
+// supervoxel belongs to the body that supervoxel is mapped to.
+func (d *Data) bodyLabels(v dvid.VersionID, ids []uint64) []uint64 {
+	mapper, ok := d.getSyncedLabels().(mappedLabelType)
+	if !ok {
+		return ids
+	}
+	mapped, _, err := mapper.GetMappedLabels(v, ids)
+	if err != nil {
+		dvid.Errorf("annotation %q could not map supervoxels to labels: %v\n", d.DataName(), err)
+		return ids
+	}
+	return mapped
+}
+
 // If a block of labels is ingested, adjust each label's synaptic element list.
 func (d *Data) ingestBlock(ctx *datastore.VersionedCtx, chunkPt dvid.ChunkPoint3d, data []byte, batcher storage.KeyValueBatcher) {
 	blockSize := d.blockSize()
@@ -388,10 +408,15 @@ func (d *Data) ingestBlock(ctx *datastore.VersionedCtx, chunkPt dvid.ChunkPoint3
 	// Iterate through all element positions, finding corresponding label and storing elements.
 	added := 0
 	toAdd := LabelElements{}
+	blockLabels := make([]uint64, len(elems))
 	for n := range elems {
 		pt := elems[n].Pos.Point3dInChunk(blockSize)
 		i := (pt[2]*blockSize[1]+pt[1])*blockSize[0]*8 + pt[0]*8
-		label := binary.LittleEndian.Uint64(data[i : i+8])
+		blockLabels[n] = binary.LittleEndian.Uint64(data[i : i+8])
+	}
+	blockLabels = d.bodyLabels(ctx.VersionID(), blockLabels)
+	for n := range elems {
+		label := blockLabels[n]
 		if label != 0 {
 			toAdd.add(label, elems[n].ElementNR)
 			added++
@@ -474,14 +499,20 @@ func (d *Data) mutateBlock(ctx *datastore.VersionedCtx, mutID uint64, chunkPt dv
 	labels := make(map[uint64]struct{})
 	toAdd := LabelElements{}
 	toDel := LabelPoints{}
+	curLabels := make([]uint64, len(elems))
+	oldLabels := make([]uint64, len(elems))
 	for n := range elems {
 		pt := elems[n].Pos.Point3dInChunk(blockSize)
 		i := pt[2]*bY + pt[1]*bX + pt[0]*8
-		label := binary.LittleEndian.Uint64(data[i : i+8])
-		var old uint64
+		curLabels[n] = binary.LittleEndian.Uint64(data[i : i+8])
 		if len(prev) != 0 {
-			old = binary.LittleEndian.Uint64(prev[i : i+8])
+			oldLabels[n] = binary.LittleEndian.Uint64(prev[i : i+8])
 		}
+	}
+	curLabels = d.bodyLabels(ctx.VersionID(), curLabels)
+	oldLabels = d.bodyLabels(ctx.VersionID(), oldLabels)
+	for n := range elems {
+		label, old := curLabels[n], oldLabels[n]
 		if label != 0 {
 			toAdd.add(label, elems[n].ElementNR)
 			labels[label] = struct{}{}
